@@ -431,12 +431,16 @@ func c01R33(ic *IC, r *Report) {
 		}
 		return true
 	})
+	var scope ast.Node = one
+	where := "a closure of the single-operand case"
 	if one == nil {
-		r.Errorf("R01.33: the case of a single operand (switch over the number of operands) was not found in _return")
-		return
+		// no arity switch any more (the cases may have been merged into one loop): any closure
+		// of the generator storing by a variable index serves every arity
+		scope = fi.Decl.Body
+		where = "a closure of the generator"
 	}
 	ok := false
-	ast.Inspect(one, func(q ast.Node) bool {
+	ast.Inspect(scope, func(q ast.Node) bool {
 		fl, isLit := q.(*ast.FuncLit)
 		if !isLit {
 			return true
@@ -453,7 +457,7 @@ func c01R33(ic *IC, r *Report) {
 		})
 		return false
 	})
-	r.Check(ok, "R01.33", "_return/single-operand/can-set-several-results", ic.pos(one.Pos()), "a closure of the single-operand case stores the results by a variable index",
+	r.Check(ok, "R01.33", "_return/single-operand/can-set-several-results", ic.pos(scope.Pos()), where+" stores the results by a variable index",
 		"with one operand _return only stores f.data[0]: when the operand is a call returning several values whose first type is not identical to the first result type (so that the call does not store directly), only the first value is returned - type IS []int; func g() (IS, int) { return f() } yields [1 2] 0")
 }
 
